@@ -313,6 +313,10 @@ def execute(case):
                 v('outputs', f"outputs {views['outputs']!r} expected {model_outputs!r}")
             if views['is_successful'] != ['ok', model_ok] or views['successful'] != ['ok', model_ok]:
                 v('successful', f"is_successful={views['is_successful']} successful()={views['successful']}, the model says {model_ok} for outputs {model_outputs!r}")
+            for _pid, port, visible in ex.world.extra.get('emitted_visible', ()):
+                if not visible:
+                    v('announced-before-stored', f'the listeners were told about output {port!r} when it was not (yet) among the outputs of the process')
+                    break
             got_pairs = [[n[0].replace(sep, '.') if sep else n[0], n[1]] for n in notes]
             if got_pairs != accepted_pairs:
                 v('listener-emissions', f'listeners saw {got_pairs} expected {accepted_pairs}')
